@@ -16,7 +16,7 @@ LEVEL = "proof"
 LEAN = ["SaVerif.Props.C38"]
 META = {
     "text": "Lean theorems for lists of any length and any operation arguments: slice.indices(len) is always in range and every position of range(*indices) is a valid index (so the extended-slice loop never raises IndexError); the step-1 slice assignment (delete loop + insert loop, including `value is self`) equals list slice assignment; instrumented_list_refines_list_partial: every operation (append, remove, insert, __setitem__/__delitem__ by index and by any slice, pop, clear, extend/+=, *=, reverse) has the contents, return value and exception of the builtin list, and along any operation sequence the two go through the same states (induction); instrumented_list_events_account_partial: old + appended = new + removed as multisets. Both are _partial with exact guards, the excluded regions G1/G3/G4/G5 being proved real by counterexample theorems and replayed on the real code (known findings). Sets and dicts are FULL theorems: whenever the builtin operation succeeds the instrumented set/dict ends with the same members / items (same order), raises nothing and fires exactly one append per new member and one remove per lost member (sets) / accounts for every value entering or leaving (dicts, KeyFuncDict.set/remove, |=); when the builtin raises, the instrumented one raises, unchanged and silent. Models are validated on every run against CPython's own list/set/dict and slice.indices, and against real relationship collections (InstrumentedList, InstrumentedSet, attribute_keyed_dict) with append/remove listeners; the builtin type runs side by side as the direct oracle.",
-    "note": "_partial theorems: instrumented_list_refines_list_partial (ContentsGuard: not a non-iterable value on a non-empty step-1 slice [G3]; extended slice not from an iterator [G4]), instrumented_list_events_account_partial (EventsGuard: additionally remove(x) needs x present [G1], *= needs n = 1 [G5]; `del l[slice]` events are shown by transcription to be the items of l[slice], the remaining multiset fact is about the builtin list only and is validated against CPython, not proved). Known finding outside the model: InstrumentedSet.update is not variadic [G6]. Trusted: Lean kernel; CPython list/set/dict semantics as modelled (validated differentially); set.pop's choice of member is taken from the observation; fire_append_wo_mutation / pre-remove events are not modelled (only append/remove).",
+    "note": "_partial theorems: instrumented_list_refines_list_partial (ContentsGuard: not a non-iterable value on a non-empty step-1 slice [G3]; extended slice not from an iterator [G4]), instrumented_list_events_account_partial (EventsGuard: additionally remove(x) needs x present [G1], *= needs n = 1 [G5]); `del l[slice]` is covered for every start/stop/step (delslice_events_are_the_slice: the range positions are distinct and valid, so the removed items are exactly l[slice]); instrumented_list_history_events_account_partial lifts the accounting to whole histories by induction. Known finding outside the model: InstrumentedSet.update is not variadic [G6]. Trusted: Lean kernel; CPython list/set/dict semantics as modelled (validated differentially); set.pop's choice of member is taken from the observation; fire_append_wo_mutation / pre-remove events are not modelled (only append/remove).",
     "technique": "Lean 4 refinement proofs (instrumented operation = builtin operation + exact event accounting, for all lengths / indices / slices) + exhaustive small-scope and random differential correspondence with real relationship collections and with CPython's own list/set/dict + side-by-side builtin oracle",
     "design_ref": "DESIGN.md §3 C38",
 }
@@ -155,6 +155,16 @@ def run(ctx, deep=False):
     if ctx.driver_ok():
         ctx.correspond("corr/c38:plain-dict-model-vs-CPython", pcases, pimpl, ctx.driver(preqs))
         ctx.correspond("corr/c38:KeyFuncDict-vs-Model.PySetDict", cases, impl_out, ctx.driver(reqs))
+    # ------------------------------------------------------------ whole-collection assignment (bulk_replace)
+    for kind in ("list", "set", "dict"):
+        for _ in range(600 if thorough else 150):
+            old = ctx.rng.sample(range(P.NITEMS), ctx.rng.randint(0, 5))
+            new = ctx.rng.sample(range(P.NITEMS), ctx.rng.randint(0, 5))
+            ctx.case(("assign", kind, old, new), nontrivial=True)
+            ctx.count("assign." + kind)
+            r = P.run_bulk_replace(kind, old, new)
+            if r:
+                ctx.violation(r[0], {"kind": "assign", "coll": kind, "old": old, "new": new}, r[1])
     ctx.exhaustive = thorough
 
 
@@ -175,6 +185,10 @@ def replay(ctx, obj):
         trace, req, fails = P.run_set_sequence(c["init"], c["ops"])
     elif kind == "dict":
         trace, req, fails = P.run_dict_sequence([tuple(p) for p in c["init"]], c["ops"])
+    elif kind == "assign":
+        r = P.run_bulk_replace(c["coll"], c["old"], c["new"])
+        print("replay C38 assign %s old=%s new=%s -> %s" % (c["coll"], c["old"], c["new"], r))
+        return r is not None
     else:
         raise ValueError(kind)
     want = obj.get("key")
